@@ -149,11 +149,15 @@ def all_cases(tier="quick"):
         for index, name in enumerate(NAMES):
             empty = index % 2 == 0
             catalogue.append(text_field(name, ["", "5", "3...5", "...10"][index % 4], [None, 5, 5, 10][index % 4], empty))
+            if index % 3 == 0:
+                # a lower length limit of 0 says nothing about NOT NULL: only the empty mark does
+                catalogue.append(text_field(name, "0...7", 7, index % 2 == 1))
+                catalogue.append(text_field(name, "0, 3...9", 9, index % 2 == 0, "Choice", '"abc","defg"'))
             catalogue.append(integer_field(name, -index, 10**index, not empty))
             catalogue.append(decimal_field(name, ["", "0...99.99", "-99.999...100", "0.5...0.9", "-1.50...1.5, 7...9.25"][index % 5], empty))
             catalogue.append(text_field(name, "...7", 7, not empty, "Choice", '"a","b"'))
         for count in range(1, 7):
-            for start in range(0, len(catalogue), 3):
+            for start in range(0, len(catalogue)):
                 chosen, seen = [], set()
                 for field in catalogue[start:] + catalogue[:start]:
                     if field["name"] not in seen:
